@@ -10,6 +10,7 @@ CONSTANTS
   MaxIx = 3
   MaxDepth = 2
   CellMask = TRUE
+  CopyClear = TRUE
   Valueless = TRUE
   Deviations = {}
 VIEW vw
